@@ -50,9 +50,10 @@ mod conn {
         pub kind: EpKind,
         pub addr: SocketAddr,
         pub listener: Option<TcpListener>,
-        /// closed port: a socket that is bound (so nobody else can get the port while the case
-        /// runs) but never listens, so every connect is refused
-        pub _reserved: Option<socket2::Socket>,
+        /// sockets that are bound (so nobody else can get the port while the case runs) but never listen, so
+        /// every connect is refused: a closed endpoint's own address, and the endpoint's port on the other
+        /// loopback addresses (see `SHADOW_IPS`)
+        pub _reserved: Vec<socket2::Socket>,
     }
 
     pub fn parse_kind(s: &str) -> Option<EpKind> {
@@ -66,36 +67,62 @@ mod conn {
     }
 
     pub fn make_ep(kind: EpKind, taken: &[u16]) -> std::io::Result<Ep> {
-        for _ in 0..50 {
-            let ep = make_ep1(kind)?;
-            // distinct port numbers inside one case (the two address families allocate independently)
-            if !taken.contains(&ep.addr.port()) {
-                return Ok(ep);
+        let mut last = std::io::Error::new(std::io::ErrorKind::Other, "no distinct port");
+        for _ in 0..200 {
+            match make_ep1(kind) {
+                // distinct port numbers inside one case (the two address families allocate independently)
+                Ok(ep) if !taken.contains(&ep.addr.port()) => return Ok(ep),
+                Ok(_) => {}
+                // the port is taken on one of the other loopback addresses: try the next one
+                Err(e) if e.raw_os_error() == Some(98) => last = e,
+                Err(e) => return Err(e),
             }
         }
-        Err(std::io::Error::new(std::io::ErrorKind::Other, "no distinct port"))
+        Err(last)
+    }
+
+    /// Every address an op can dial with an endpoint's port number: the endpoint's own address plus the same
+    /// port on the other loopback addresses the generators use (`127.0.0.1:@i` / `::1,@i` / `127.0.0.2:@i`
+    /// whatever the family of endpoint i).  ALL of them are held for the lifetime of the case: the endpoint's
+    /// own address by its listener (live) or by a bound, non-listening socket (closed), the others by bound,
+    /// non-listening sockets.  A connect to a held, non-listening address is refused (ECONNREFUSED) and nobody
+    /// else - a parallel check's listener, or the kernel picking the port as the SOURCE port of that very
+    /// connect (loopback self-connect) - can get the port in the meantime.
+    const SHADOW_IPS: [&str; 3] = ["127.0.0.1", "::1", "127.0.0.2"];
+
+    fn reserve(addr: SocketAddr) -> std::io::Result<socket2::Socket> {
+        use socket2::{Domain, Socket, Type};
+        let s = Socket::new(if addr.is_ipv4() { Domain::IPV4 } else { Domain::IPV6 }, Type::STREAM, None)?;
+        s.bind(&addr.into())?;
+        Ok(s)
     }
 
     fn make_ep1(kind: EpKind) -> std::io::Result<Ep> {
-        use socket2::{Domain, Socket, Type};
-        let (bind, dom): (SocketAddr, Domain) = match kind {
-            EpKind::L4 | EpKind::C4 => ("127.0.0.1:0".parse().unwrap(), Domain::IPV4),
-            EpKind::L6 | EpKind::C6 => ("[::1]:0".parse().unwrap(), Domain::IPV6),
+        let bind: SocketAddr = match kind {
+            EpKind::L4 | EpKind::C4 => "127.0.0.1:0".parse().unwrap(),
+            EpKind::L6 | EpKind::C6 => "[::1]:0".parse().unwrap(),
         };
-        match kind {
+        let (addr, listener, mut reserved) = match kind {
             EpKind::L4 | EpKind::L6 => {
                 let l = TcpListener::bind(bind)?;
                 let addr = l.local_addr()?;
                 l.set_nonblocking(true)?;
-                Ok(Ep { kind, addr, listener: Some(l), _reserved: None })
+                (addr, Some(l), vec![])
             }
             _ => {
-                let s = Socket::new(dom, Type::STREAM, None)?;
-                s.bind(&bind.into())?;
+                let s = reserve(bind)?;
                 let addr = s.local_addr()?.as_socket().unwrap();
-                Ok(Ep { kind, addr, listener: None, _reserved: Some(s) })
+                (addr, None, vec![s])
+            }
+        };
+        for ip in SHADOW_IPS {
+            let ip: IpAddr = ip.parse().unwrap();
+            if ip != addr.ip() {
+                // EADDRINUSE here = somebody holds this port on another loopback address: the caller takes another port
+                reserved.push(reserve(SocketAddr::new(ip, addr.port()))?);
             }
         }
+        Ok(Ep { kind, addr, listener, _reserved: reserved })
     }
 
     /// request type: a `String` or a `&'static str` (the crate's own `Host for String` / `Host for &'static str`)
@@ -464,6 +491,12 @@ static ENV_RETRIES: std::sync::atomic::AtomicUsize = std::sync::atomic::AtomicUs
 
 fn run_conn_op_attempt(rt: &tokio::runtime::Runtime, cx: &Ctx, op: &ConnOp, rep: &mut T3Sink, attempt: usize) -> String {
     let mut env98 = false;
+    // A connect that SUCCEEDS at an address which is not one of this case's live listeners was answered by
+    // somebody else (a parallel job's server on a port we do not hold, or the kernel's loopback self-connect):
+    // our listeners own their (ip, port) exclusively, so this test is exact.  Such an attempt says nothing
+    // about the connector: it is discarded and repeated, and never judged.
+    let mut stranger: Option<SocketAddr> = None;
+    let ours = |a: &SocketAddr| cx.eps.iter().any(|e| e.listener.is_some() && e.addr == *a);
     let log = Rc::new(RefCell::new(vec![]));
     let script_resolver = || match &op.res {
         Some(script) => ScriptResolver { script: script.clone(), log: log.clone() },
@@ -616,6 +649,9 @@ fn run_conn_op_attempt(rt: &tokio::runtime::Runtime, cx: &Ctx, op: &ConnOp, rep:
                 match rt.block_on(async { tokio::time::timeout(Duration::from_secs(20), direct_connect(*a, local)).await }) {
                     Ok(Ok(s)) => {
                         let _ = s.set_linger(Some(Duration::ZERO));
+                        if !ours(a) {
+                            stranger = Some(*a);
+                        }
                         first_ok = Some(*a);
                         break;
                     }
@@ -680,11 +716,37 @@ fn run_conn_op_attempt(rt: &tokio::runtime::Runtime, cx: &Ctx, op: &ConnOp, rep:
         Out::Err(ConnectError::Io(e)) => env98 |= e.raw_os_error() == Some(EADDRINUSE),
         _ => {}
     }
+    if let Out::Stream(peer, _, _, _) = &r {
+        if !ours(peer) {
+            stranger = Some(*peer);
+        }
+    }
     drop(r);
     if env98 && attempt < 20 && ENV_RETRIES.fetch_add(1, std::sync::atomic::Ordering::Relaxed) < 200 {
         rep.note(&format!("EADDRINUSE (the machine is short of local ports): attempt {attempt} of this op is discarded and repeated"));
         std::thread::sleep(Duration::from_millis(100 + 100 * attempt as u64));
         return run_conn_op_attempt(rt, cx, op, rep, attempt + 1);
+    }
+    // The mirror image: a connection in one of OUR accept queues that the connector's result does not account
+    // for (exactly one at the listener it reports, none anywhere else).  A connector that dials too much does
+    // so every time; a stranger's client that was handed one of our port numbers earlier (a parallel job
+    // probing a port it used to own) does not: the attempt is repeated, and only a surplus that shows on
+    // every attempt is reported.
+    let surplus = acc.iter().enumerate().any(|(i, n)| matches!(n, Some(k) if *k != (Some(i) == connected_to) as usize));
+    if surplus && attempt < 3 && ENV_RETRIES.fetch_add(1, std::sync::atomic::Ordering::Relaxed) < 200 {
+        rep.note(&format!("accept counts {} do not match the connector's result: attempt {attempt} of this op is repeated to tell a stranger's connection from the connector's own", fmt_acc(&acc)));
+        std::thread::sleep(Duration::from_millis(50));
+        return run_conn_op_attempt(rt, cx, op, rep, attempt + 1);
+    }
+    if let Some(a) = stranger {
+        if attempt < 20 && ENV_RETRIES.fetch_add(1, std::sync::atomic::Ordering::Relaxed) < 200 {
+            rep.note(&format!("a connect to {a}, where this case has no listener, was answered (a stranger's server or a loopback self-connect): attempt {attempt} of this op is discarded and repeated"));
+            std::thread::sleep(Duration::from_millis(50 + 100 * attempt as u64));
+            return run_conn_op_attempt(rt, cx, op, rep, attempt + 1);
+        }
+        // somebody keeps answering there: the environment assumption is broken, no verdict about the connector
+        rep.note(&format!("a stranger keeps answering at {a}: the oracle does not judge this op"));
+        fails.clear();
     }
     for m in fails {
         rep.t3("C19", &m);
